@@ -121,7 +121,11 @@ func nextCloserDeniedWithWork(
 ) (denied bool, secure bool, err error) {
 	for _, rr := range nsecSet {
 		n := rr.(*dns.NSEC)
-		if nsecCovers(n.Header().Name, n.NextDomain, nextCloser) {
+		// Canonical coverage alone is not denial: a next name below the
+		// next closer name spans an empty non-terminal, so the next closer
+		// name exists and the wildcard is not the closest match.
+		if nsecCovers(n.Header().Name, n.NextDomain, nextCloser) &&
+			!strictlyBelow(n.NextDomain, nextCloser) {
 			return true, true, nil
 		}
 	}
